@@ -48,21 +48,36 @@ TAG_TO_MATCH = {
     "exec-conn0": "exec-conn0",
     "second-bpop": "pipelined-second-bpop",
     "hangup-blocked": "disconnect-while-blocked",
+    "big-push": "wake-batch-overflow",
 }
+FIVE = ("notify_per_element", "wake_at_push", "unregister_all", "refuse_in_tx", "dedup_keys")
 # which source switch closes which finding (None = no local repair proposed)
 MATCH_TO_SWITCH = {
     "multi-key-leftover": "unregister_all",
-    "pipelined-second-bpop": None,          # with unregister_all the element is no longer lost, but the second call is never answered
+    "pipelined-second-bpop": "defer_batch",
     "one-wake-per-push": "notify_per_element",
     "pipelined-push-pop": "wake_at_push",
     "exec-conn0": "refuse_in_tx",
-    "disconnect-while-blocked": None,
+    "disconnect-while-blocked": "notice_blocked_hangup",
+    "wake-batch-overflow": "drain_all",
+    "exec-not-atomic": None,
     "push-by-script": None,
     "rename-onto-waited-key": None,
 }
 GUARD_MS = 100      # no action starts when a deadline is closer than this
 MARGIN_MS = 60      # a deadline counts as passed this long after it
 LATE_MS = 300       # a nil may be this late
+
+
+SWITCHES = ("notify_per_element", "wake_at_push", "unregister_all", "refuse_in_tx", "dedup_keys", "drain_all", "notice_blocked_hangup", "defer_batch")
+
+
+def cfg_line(facts):
+    return "cfg " + " ".join("1" if facts[k] else "0" for k in SWITCHES)
+
+
+def repaired(facts):
+    return all(facts[k] for k in FIVE)
 
 
 def source_facts():
@@ -204,8 +219,9 @@ class Session:
     def __init__(self, rep, facts):
         self.rep = rep
         self.facts = facts
+        self.repaired = repaired(facts)
         self.model = lean_driver("blk")
-        cfg = "cfg %d %d %d %d %d" % (facts["notify_per_element"], facts["wake_at_push"], facts["unregister_all"], facts["refuse_in_tx"], facts["dedup_keys"])
+        cfg = cfg_line(facts)
         if self.model.ask(cfg) != "ok":
             raise InternalError("drv_blk refused: " + cfg)
         self.srv = None
@@ -302,7 +318,9 @@ class HistoryRun:
         self.seq = 0
         self.steps = []             # executed actions (replayable)
         self.trace = []             # human readable
-        self.tags = []              # (step, tag)
+        self.tags = []              # (step, tag): reasons why the history left Allowed (AllowedFixed on a repaired tree)
+        self.old_tags = []
+        self.self_serve = None
         self.oracle = []            # (kind, detail)
         self.disagree = []
         self.flagged = set()
@@ -336,10 +354,10 @@ class HistoryRun:
         for part in d["conns"].split(";"):
             c, st = part.split(":", 1)
             flags = ""
-            while st and st[-1] in "xgt":
+            while st and st[-1] in "xgtd":
                 flags = st[-1] + flags
                 st = st[:-1]
-            m["conns"][int(c)] = {"blocked": st != "-", "closed": "x" in flags, "gone": "g" in flags, "tx": "t" in flags, "state": st}
+            m["conns"][int(c)] = {"blocked": st != "-", "closed": "x" in flags, "gone": "g" in flags, "tx": "t" in flags, "deferred": "d" in flags, "state": st}
         for f in ("stranded", "leftover", "unreg"):
             m[f] = [] if d[f] == "." else d[f].split(",")
         self.m = m
@@ -347,11 +365,16 @@ class HistoryRun:
 
     def model_event(self, line, step):
         a = self.S.ask("ev " + line)
-        ok, tags, outs = a.split(" ")
-        if (ok == "1") != (tags == "."):
-            raise InternalError("driver: eventOk and reason tags disagree on %r: %r" % (line, a))
+        ok, tags, okf, ftags, outs = a.split(" ")
+        if (ok == "1") != (tags == ".") or (okf == "1") != (ftags == "."):
+            raise InternalError("driver: eventOk / eventOkF and reason tags disagree on %r: %r" % (line, a))
         if tags != ".":
             for t in tags.split(","):
+                self.old_tags.append((step, t))
+        # once the five repairs are in the source, only what `AllowedFixed` excludes can explain a failure
+        use = ftags if self.S.repaired else tags
+        if use != ".":
+            for t in use.split(","):
                 self.tags.append((step, t))
         res = {}
         if outs != ".":
@@ -461,8 +484,21 @@ class HistoryRun:
             n += 1
         # a closed, unblocked connection is read (EOF) and cleaned up within one iteration
         for c, st in self.refresh_model()["conns"].items():
-            if st["closed"] and not st["gone"] and not st["blocked"]:
+            if st["closed"] and not st["gone"] and (not st["blocked"] or self.S.facts["notice_blocked_hangup"]):
                 self.model_event("reap %d" % c, step)
+        # frames kept behind a blocking pop are executed as soon as the client is unblocked (next iteration)
+        for _ in range(4):
+            again = False
+            for c, st in self.refresh_model()["conns"].items():
+                if st["deferred"] and not st["blocked"] and not st["closed"] and not st["gone"]:
+                    for c2, toks in self.model_event("conn %d %d" % (c, self.now()), step).items():
+                        expect.setdefault(c2, []).extend(toks)
+                    again = True
+            if not again:
+                break
+            while self.refresh_model()["wq"]:
+                for c2, toks in self.model_event("wakeups", step).items():
+                    expect.setdefault(c2, []).extend(toks)
         m = self.refresh_model()
         got = {}
         for ci, f in enumerate(self.flat):
@@ -502,6 +538,12 @@ class HistoryRun:
         dis = []
         for cid in self.ids:
             if got.get(cid, []) != expect.get(cid, []) and not self.closed[self.ids.index(cid)]:
+                if cid == self.self_serve and sorted(got.get(cid, [])) == sorted(expect.get(cid, [])):
+                    # a client served by a command of its own batch, pipelined behind its blocking pop: the server writes the
+                    # wake-up reply into the socket buffer at once and the replies of the batch after the batch, the model in
+                    # execution order.  Same replies, other order: reply ordering is C05's subject, not compared here.
+                    self.rep.count("reply-order.self-serve-not-compared")
+                    continue
                 dis.append("replies of conn %d: impl %s, code %s" % (cid, got.get(cid, []), expect.get(cid, [])))
         if reg != m["reg"]:
             dis.append("registry: impl %s, code %s" % (show_reg(reg), show_reg(m["reg"])))
@@ -603,6 +645,7 @@ class HistoryRun:
         kind = action[0]
         self.served_now = []
         self.pre = {}
+        self.self_serve = None
         if kind == "tick":
             if not self.m["deadlines"] and not self.wait_deadlines():
                 return None
@@ -629,8 +672,19 @@ class HistoryRun:
             if self.closed[ci] or st["blocked"] or st["gone"]:
                 return None          # a blocked client cannot send: the server would not read it
             self.steps.append(action)
+            waiters_on = set(k for k, v in self.m["reg"].items() if v)
+            for f in features(action, self.m):
+                self.rep.count("feature." + f)
+            for cmd in action[2]:
+                if cmd[0] == "push" and self.keys[cmd[2]] in waiters_on:
+                    self.rep.count("feature.push-to-key-with-%d-waiters.%s" % (min(len(self.m["reg"][self.keys[cmd[2]]]), 3), "multi-elem" if cmd[3] > 1 else "1elem"))
+                if cmd[0] == "pop" and any(c2[0] == "push" and c2[2] == cmd[2] for c2 in action[2]) and self.keys[cmd[2]] in waiters_on:
+                    self.rep.count("feature.race.push-pop-same-batch-with-waiter")
             wire, words = [], []
             t = self.now()
+            tops = [c_[0] for c_ in action[2]]
+            if "bpop" in tops and tops.index("bpop") < len(tops) - 1 and "multi" not in tops[:tops.index("bpop")]:
+                self.self_serve = cid
             inm = self.in_multi[ci]
             blocked_in_batch = False
             for cmd in action[2]:
@@ -687,41 +741,51 @@ def show_reg(reg):
 # --------------------------------------------------------------------------------------------
 # generators
 # --------------------------------------------------------------------------------------------
-def gen_action(r, h, allowed_only, timed):
+def gen_action(r, h, mode, timed):
+    """mode: 'allowed' = inside the old `Allowed` (single key, single element, …); 'fixed' = inside `AllowedFixed`
+    (everything except a hang-up while blocked, a blocking pop behind a blocking pop in one batch, a push of more
+    than 32 elements); 'free' = anything"""
     m = h.m
     free = [ci for ci in range(len(h.clients)) if not h.closed[ci] and not m["conns"][h.ids[ci]]["blocked"]]
     op = lambda: r.choice(["L", "R"])
     key = lambda: r.below(2)
     tmo = lambda: (r.choice([200, 200, 400]) if (timed and r.chance(1, 2)) else 0)
+    keys_multi = lambda: r.choice([[0, 1], [1, 0], [0, 0], [0, 1, 0], [1, 1, 0]])
+    allowed_only = mode == "allowed"
     x = r.below(100)
     if not free:
         if m["deadlines"]:
             return ("tick",)
         cands = [ci for ci in range(len(h.clients)) if not h.closed[ci]]
-        return ("hangup", r.choice(cands)) if cands and not allowed_only else None
+        return ("hangup", r.choice(cands)) if cands and mode == "free" else None
     ci = r.choice(free)
-    if x < 32:
-        if allowed_only or r.chance(2, 3):
+    if x < 30:
+        if allowed_only or r.chance(2, 5):
             return ("send", ci, [("bpop", op(), [key()], tmo())])
-        ks = r.choice([[0, 1], [1, 0], [0, 0]])
-        return ("send", ci, [("bpop", op(), ks, tmo())])
-    if x < 62:
-        n = 1 if (allowed_only or r.chance(2, 3)) else r.range(2, 3)
+        return ("send", ci, [("bpop", op(), keys_multi(), tmo())])
+    if x < 58:
+        n = 1 if (allowed_only or r.chance(2, 5)) else r.choice([2, 2, 3, 3, 4, 5])
         return ("send", ci, [("push", op(), key(), n)])
-    if x < 70:
+    if x < 64:
         return ("send", ci, [("pop", op(), key())])
-    if x < 82:
+    if x < 80:
         k = key()
         if allowed_only:
             return ("send", ci, [("push", op(), k, 1), ("pop", op(), 1 - k)] if r.chance(1, 2) else [("pop", op(), k), ("push", op(), k, 1)])
-        return ("send", ci, r.choice([
+        batches = [
             [("push", op(), k, 1), ("pop", op(), k)],
             [("push", op(), k, 1), ("pop", op(), k)],
+            [("push", op(), k, r.range(2, 3)), ("pop", op(), k), ("pop", op(), k)],
             [("push", op(), k, 1), ("bpop", op(), [k], tmo())],
-            [("push", op(), k, 1), ("push", op(), k, 1)],
+            [("push", op(), k, 2), ("bpop", op(), [1 - k, k], tmo())],
+            [("push", op(), k, 1), ("push", op(), 1 - k, 2)],
             [("bpop", op(), [k], tmo()), ("push", op(), 1 - k, 1)],
-            [("bpop", op(), [k], 0), ("bpop", op(), [1 - k], 0)],
-        ]))
+            [("bpop", op(), keys_multi(), tmo()), ("push", op(), k, 2), ("pop", op(), k)],
+            [("pop", op(), k), ("push", op(), k, 3), ("pop", op(), 1 - k)],
+        ]
+        if mode == "free":
+            batches += [[("bpop", op(), [k], 0), ("bpop", op(), [1 - k], 0)], [("bpop", op(), [k], tmo()), ("bpop", op(), keys_multi(), 0)]]
+        return ("send", ci, r.choice(batches))
     if x < 88:
         k = key()
         if allowed_only:
@@ -730,16 +794,50 @@ def gen_action(r, h, allowed_only, timed):
             [("multi",), ("bpop", op(), [k], 0), ("exec",)],
             [("multi",), ("push", op(), k, 1), ("bpop", op(), [k], 0), ("exec",)],
             [("multi",), ("push", op(), k, 2), ("exec",)],
+            [("multi",), ("push", op(), k, 3), ("pop", op(), k), ("push", op(), 1 - k, 1), ("exec",)],
+            [("multi",), ("bpop", op(), keys_multi(), 0), ("push", op(), 1 - k, 2), ("exec",)],
             [("multi",), ("pop", op(), k), ("push", op(), k, 1), ("exec",)],
         ]))
     if x < 94:
         if m["deadlines"]:
             return ("tick",)
-        return ("send", ci, [("push", op(), key(), 1)])
-    if allowed_only:
+        return ("send", ci, [("push", op(), key(), r.range(1, 3) if not allowed_only else 1)])
+    if mode != "free":
         return ("hangup", ci)
     cands = [c for c in range(len(h.clients)) if not h.closed[c]]
     return ("hangup", r.choice(cands))
+
+
+def features(action, model_before):
+    """what a sent batch exercises (distribution printed into the evidence)"""
+    fs = []
+    if action[0] != "send":
+        return [action[0]]
+    cmds = action[2]
+    in_multi = False
+    pushed = set()
+    for c in cmds:
+        if c[0] == "multi":
+            in_multi = True
+        elif c[0] == "exec":
+            in_multi = False
+        elif c[0] == "bpop":
+            ks = c[2]
+            fs.append("bpop.%dkey%s%s%s" % (len(set(ks)), ".dup" if len(set(ks)) < len(ks) else "", ".timeout" if c[3] else "", ".in-exec" if in_multi else ""))
+            if set(ks) & pushed:
+                fs.append("race.push-then-bpop-same-batch")
+        elif c[0] == "push":
+            fs.append("push.%s%s" % ("1elem" if c[3] == 1 else "multi-elem", ".in-exec" if in_multi else ""))
+            if model_before["reg"].get(c[2]) is not None:
+                pass
+            pushed.add(c[2])
+        elif c[0] == "pop":
+            fs.append("pop" + (".in-exec" if in_multi else ""))
+            if c[2] in pushed:
+                fs.append("race.push-then-pop-same-batch")
+    if len(cmds) > 1 and not any(c[0] == "multi" for c in cmds):
+        fs.append("pipeline")
+    return fs
 
 
 def guarded(h, body):
@@ -756,12 +854,12 @@ def guarded(h, body):
         return h
 
 
-def run_random(sess, r, n_actions, nclients, allowed_only, timed, label):
+def run_random(sess, r, n_actions, nclients, mode, timed, label):
     h = HistoryRun(sess, nclients, label)
 
     def body():
         for _ in range(n_actions):
-            a = gen_action(r, h, allowed_only, timed)
+            a = gen_action(r, h, mode, timed)
             if a is None:
                 break
             res = h.do(a)
@@ -830,7 +928,7 @@ def registry_phase(rep, r, facts, n_seq):
     model = lean_driver("blk")
     dis = []
     try:
-        model.ask("cfg %d %d %d %d %d" % (facts["notify_per_element"], facts["wake_at_push"], facts["unregister_all"], facts["refuse_in_tx"], facts["dedup_keys"]))
+        model.ask(cfg_line(facts))
         keys = [b"a", b"b", b"c"]
 
         def canon(line):
@@ -919,7 +1017,68 @@ def probes(sess):
                 out[name] = None
         finally:
             a.close()
+    out["wake-batch-overflow"] = probe_batch_overflow(sess)
+    out["exec-not-atomic"] = probe_exec_atomic(sess)
     return out
+
+
+def probe_batch_overflow(sess):
+    """34 clients blocked on k; one write `RPUSH k v0..v33 ; LPOP k`: the drain after RPUSH carries out one batch of
+    32 wake-ups, LPOP takes the element of the 33rd; is a waiter dropped from the registry for good?"""
+    sess.hist_no += 1
+    k = b"p%d:overflow" % sess.hist_no
+    n = 34
+    ws = [sess.srv.client() for _ in range(n)]
+    p = sess.srv.client()
+    try:
+        for w in ws:
+            w.send("BLPOP", k, "0")
+        sess.wait_loops(4)
+        reg, wq = sess.impl_blocked([k])
+        if len(reg.get(k, [])) != n:
+            raise InternalError("probe: %d of %d clients registered" % (len(reg.get(k, [])), n))
+        p.send_raw(Client.encode(["RPUSH", k] + ["v%d" % i for i in range(n)]) + Client.encode(["LPOP", k]))
+        f = Flat(p)
+        r1, r2 = f.read(2.0), f.read(2.0)
+        sess.wait_loops(6)
+        served = sum(1 for w in ws if Flat(w).read(0.02) is not None)
+        sess.ctl.cmd("RPUSH", k, "late", timeout=5)
+        sess.wait_loops(6)
+        served_late = sum(1 for w in ws if Flat(w).read(0.02) is not None)
+        reg, wq = sess.impl_blocked([k])
+        lst = sess.impl_list(k)
+        waiting = n - served - served_late
+        if waiting > 0 and lst:
+            return {"why": "%d of %d clients blocked on %r were served by RPUSH of %d elements + pipelined LPOP (%s, %s); a later push left %r in the list while "
+                           "%d client(s) still wait and the registry is %s: a waiter was dropped for good" % (served, n, k, n, r1, r2, lst, waiting, show_reg(reg)),
+                    "commands": ["%d x BLPOP k 0" % n, "RPUSH k v0..v%d ; LPOP k (one write)" % (n - 1), "RPUSH k late"]}
+        return None
+    finally:
+        for w in ws:
+            w.close()
+        p.close()
+
+
+def probe_exec_atomic(sess):
+    """A blocked on k; B: MULTI; RPUSH k a; LPOP k; EXEC.  A transaction is one indivisible step: its LPOP must see `a`."""
+    sess.hist_no += 1
+    k = b"p%d:exec" % sess.hist_no
+    a, b = sess.srv.client(), sess.srv.client()
+    try:
+        a.send("BLPOP", k, "0")
+        sess.wait_loops(3)
+        b.send_raw(Client.encode(["MULTI"]) + Client.encode(["RPUSH", k, "a"]) + Client.encode(["LPOP", k]) + Client.encode(["EXEC"]))
+        f = Flat(b)
+        toks = [f.read(2.0, header=(i == 3)) for i in range(6)]
+        sess.wait_loops(4)
+        got_a = Flat(a).read(0.05)
+        if toks[3:] == ["h2", "i1", "n"] and got_a is not None:
+            return {"why": "inside MULTI/EXEC the LPOP that follows RPUSH %r a replied nil: the blocked client was served (%s) between the two queued commands" % (k, got_a),
+                    "commands": ["A: BLPOP k 0", "B: MULTI ; RPUSH k a ; LPOP k ; EXEC"], "replies": toks}
+        return None
+    finally:
+        a.close()
+        b.close()
 
 
 def show_plain(r):
@@ -1058,14 +1217,12 @@ def main(tier, seed):
         # 1b. list growth that bypasses the LPUSH/RPUSH arms (outside the model's alphabet): judged by the oracle alone
         for pm, res in probes(sess).items():
             rep.evaluations += 1
-            rep.count("probe.%s.%s" % (pm, "stranded" if res else "served"))
-            f = next((f for f in findings if f.get("match") == pm), None)       # (probes have no source switch)
+            rep.count("probe.%s.%s" % (pm, "fails" if res else "holds"))
+            f = next((f for f in expected_open if f.get("match") == pm), None)
             if res and f:
-                V.known.setdefault(f["id"], (f, None, "stranded", res))
+                V.known.setdefault(f["id"], (f, None, "probe", res))
             elif res:
                 V.new_probe.append((pm, res))
-            elif f:
-                V.probe_fixed.append(f)
         # 2. random histories
         n_hist = 420 if tier == "quick" else 6000
         budget = 55 if tier == "quick" else 420
@@ -1074,12 +1231,15 @@ def main(tier, seed):
                 rep.extra["stopped_early_after_histories"] = i
                 break
             hr = r.fork("h%d" % i)
-            allowed_only = (i % 2 == 0)
+            if sess.repaired:
+                mode = "free" if i % 3 == 2 else "fixed"      # two thirds inside AllowedFixed: no oracle failure tolerated there
+            else:
+                mode = "allowed" if i % 2 == 0 else "free"
             timed = (i % 4 == 1) or (i % 8 == 2)
-            h = run_random(sess, hr, hr.range(3, 8), hr.range(2, 3), allowed_only, timed, ("allowed" if allowed_only else "free") + "#%d" % i)
+            h = run_random(sess, hr, hr.range(3, 8), hr.range(2, 3), mode, timed, mode + "#%d" % i)
             if h.overrun and (h.oracle or h.disagree):
                 h = run_fixed(sess, h.steps, len(h.clients), h.label + "-rerun") or h
-            V.absorb(h, allowed_only)
+            V.absorb(h, mode != "free")
             if i < 3:
                 rep.sample({"history": h.label, "trace": h.trace[:14]})
         # 3. exhaustive small scope (model validation)
@@ -1105,12 +1265,11 @@ def main(tier, seed):
             rep.known(fid, f["what"])
         rep.extra["known_finding_instances"] = {fid: {"oracle": kind, "why": det["why"], "actions": (h.steps if h else det.get("commands")), "trace": (h.trace[-8:] if h else None)}
                                                 for fid, (f, h, kind, det) in V.known.items()}
-        for f in V.probe_fixed:
-            rep.violation("known finding %s no longer reproduces: findings file is stale" % f["id"], {"finding": f}, no_input=True)
+
         for pm, res in V.new_probe:
-            rep.violation("C13 stranded: %s" % res["why"], {"replay": res, "family": "blk", "oracle": "stranded", "probe": pm})
+            rep.violation("C13 %s: %s" % (pm, res["why"]), {"replay": res, "family": "blk", "oracle": pm, "probe": pm})
         for f in expected_open:
-            if f["id"] not in V.known and f.get("match") not in ("push-by-script", "rename-onto-waited-key"):
+            if f["id"] not in V.known:
                 rep.violation("known finding %s no longer reproduces: model / findings file is stale" % f["id"],
                               {"finding": f, "obligation": f.get("lean_witness"), "source_switches": facts}, no_input=True)
         if V.new:
